@@ -119,25 +119,78 @@ fn predictor_numbering_contract() {
 }
 
 // ------------------------------------------------------------------------------------------------
-// Image-driven contract: PredictorState is driven exactly as decode_single_node_slow (image.rs:894-949) does --
-// rows 0..2 and the first / last two columns with EDGE = true, the interior of rows >= 2 of channels wider than
-// 4 with EDGE = false -- over a fully symbolic WxH image. At a symbolic position, every non-weighted predictor
-// and every property of the real state equals the standard's value computed from the image.
+// The claim "Predictor::predict / Properties == the standard on every sample of every image" is split in two:
+//  (A) predict_arith_contract  [complete over values]: for ARBITRARY neighbour values held by a PredictorState,
+//      predict(k) == spec_predict(k, neighbours the state reports) and the property vector == spec_property(...).
+//  (B) neighbours_on_image_WxH [bounded geometry, complete over sample values]: driving the real state over a
+//      fully symbolic image exactly as decode_single_node_slow (image.rs:894-949) does -- rows 0..2 and the first /
+//      last two columns with EDGE = true, the interior of rows >= 2 of channels wider than 4 with EDGE = false --
+//      the neighbours the state reports at EVERY position are the H.3 neighbours of the image, and the
+//      property vector is the standard's.
 // ------------------------------------------------------------------------------------------------
-fn predictors_on_image<const W: usize, const H: usize>() {
-    let img: [[i32; W]; H] = kani::any();
-    let px: usize = kani::any();
-    let py: usize = kani::any();
-    kani::assume(px < W && py < H);
+fn nb_of_state<const EDGE: bool>(st: &PredictorState<'_, '_, i32>) -> Nb {
+    Nb {
+        w: st.w as i64,
+        n: st.n as i64,
+        nw: st.nw as i64,
+        ne: st.ne::<EDGE>() as i64,
+        nn: st.nn::<EDGE>() as i64,
+        nee: st.nee::<EDGE>() as i64,
+        ww: st.ww::<EDGE>() as i64,
+    }
+}
+
+fn predict_arith<const EDGE: bool>() {
+    // an interior position (x = 2 of a 5-wide channel, y >= 2) with arbitrary sample values everywhere
+    let prev: [i32; 5] = kani::any();
+    let curr: [i32; 5] = kani::any();
+    let mut st = PredictorState::<i32>::new();
+    st.width = 5;
+    st.prev_row = prev.to_vec();
+    st.curr_row = curr.to_vec();
+    st.x = 2;
+    st.y = kani::any();
+    kani::assume(st.y >= 2 && st.y < (1 << 30)); // channel heights are < 2^30 (frame dimension limit)
+    st.w = kani::any();
+    st.n = kani::any();
+    st.nw = kani::any();
+    st.prev_grad = kani::any();
+    let prev_grad = st.prev_grad;
+    let (x, y) = (st.x as usize, st.y as usize);
+    let nb = nb_of_state::<EDGE>(&st);
     let k: u32 = kani::any();
     kani::assume(k < 14 && k != 6);
     let predictor = match Predictor::try_from(k) {
         Ok(p) => p,
         Err(_) => unreachable!(),
     };
+    let props = Properties::new::<EDGE>(&mut st, None);
+    let got = predictor.predict::<i32, EDGE>(&props);
+    let want = spec_predict(k, &nb);
+    assert!(got == want as i32, "[C03,C01] Predictor::predict == predictor k of the standard wrapped to 32 bits, for all neighbour values");
+    if fits32(want) {
+        assert!(got as i64 == want, "[C03] ... and exactly the standard's value whenever that fits in int32");
+    }
+    kani::cover!(k == 13 && !fits32(want));
+    kani::cover!(k == 4 && got == nb.w as i32 && nb.w != nb.n);
+    kani::cover!(k == 5 && got != nb.w as i32 && got != nb.n as i32);
     let p: usize = kani::any();
     kani::assume(p < 16);
+    let gp = props.get(p);
+    let wantp = spec_property(p, x, y, &nb, prev_grad as i64, 0);
+    assert!(gp == wantp as i32, "[C03,C01] Properties::get(p) == property p of the standard wrapped to 32 bits, for all neighbour values");
+    kani::cover!(p == 9 && !fits32(wantp));
+}
 
+#[kani::proof]
+#[kani::unwind(7)]
+fn predict_arith_contract() {
+    predict_arith::<true>();
+    predict_arith::<false>();
+}
+
+fn neighbours_on_image<const W: usize, const H: usize>() {
+    let img: [[i32; W]; H] = kani::any();
     let mut st = PredictorState::<i32>::new();
     st.reset(W as u32, &[], None);
     let mut y = 0;
@@ -145,7 +198,6 @@ fn predictors_on_image<const W: usize, const H: usize>() {
         let mut x = 0;
         while x < W {
             let edge = !(y >= 2 && W > 4 && x >= 2 && x < W - 2);
-            let check = x == px && y == py;
             let nb = spec_neighbours::<W, H>(&img, x, y);
             let prop9_left = if x > 0 {
                 let l = spec_neighbours::<W, H>(&img, x - 1, y);
@@ -153,56 +205,37 @@ fn predictors_on_image<const W: usize, const H: usize>() {
             } else {
                 0
             };
-            if edge {
-                let props = st.properties::<true>();
-                if check {
-                    let got = predictor.predict::<i32, true>(&props);
-                    let want = spec_predict(k, &nb);
-                    assert!(got == want as i32, "[C03,C01] Predictor::predict::<EDGE=true> == standard's predictor k wrapped to 32 bits");
-                    if fits32(want) {
-                        assert!(got as i64 == want, "[C03] ... and exactly the standard's value when that fits in int32");
-                    }
-                    let gp = props.get(p);
-                    let wantp = spec_property(p, x, y, &nb, prop9_left, 0);
-                    assert!(gp == wantp as i32, "[C03,C01] Properties::get(p) (EDGE=true) == standard's property p wrapped to 32 bits");
-                }
-                props.record(img[y][x]);
-            } else {
-                let props = st.properties::<false>();
-                if check {
-                    let got = predictor.predict::<i32, false>(&props);
-                    let want = spec_predict(k, &nb);
-                    assert!(got == want as i32, "[C03,C01] Predictor::predict::<EDGE=false> == standard's predictor k wrapped to 32 bits");
-                    if fits32(want) {
-                        assert!(got as i64 == want, "[C03] ... and exactly the standard's value when that fits in int32");
-                    }
-                    let gp = props.get(p);
-                    let wantp = spec_property(p, x, y, &nb, prop9_left, 0);
-                    assert!(gp == wantp as i32, "[C03,C01] Properties::get(p) (EDGE=false) == standard's property p wrapped to 32 bits");
-                }
-                props.record(img[y][x]);
+            assert!(st.x as usize == x && st.y as usize == y, "[C03] the state tracks the raster position");
+            let props = if edge { st.properties::<true>() } else { st.properties::<false>() };
+            let got = if edge { nb_of_state::<true>(&*props.predictor) } else { nb_of_state::<false>(&*props.predictor) };
+            assert!(got.w == nb.w && got.n == nb.n && got.nw == nb.nw, "[C03,C01] W, N, NW of the state are the H.3 neighbours");
+            assert!(got.ne == nb.ne && got.nee == nb.nee, "[C03,C01] NE, NEE of the state are the H.3 neighbours");
+            assert!(got.nn == nb.nn && got.ww == nb.ww, "[C03,C01] NN, WW of the state are the H.3 neighbours");
+            let mut p = 0;
+            while p < 16 {
+                assert!(props.get(p) == spec_property(p, x, y, &nb, prop9_left, 0) as i32,
+                    "[C03,C01] property vector == the standard's properties 2..15 (no weighted predictor: property 15 = 0)");
+                p += 1;
             }
+            props.record(img[y][x]);
             x += 1;
         }
         y += 1;
     }
-    kani::cover!(k == 13 && py == H - 1 && px == W - 1);
-    kani::cover!(k == 4 && px == 0 && py == 0);
-    kani::cover!(p == 8 && px == 1);
 }
 
 macro_rules! image_harness {
     ($name:ident, $w:literal, $h:literal) => {
         #[kani::proof]
-        #[kani::unwind(8)]
+        #[kani::unwind(18)]
         fn $name() {
-            predictors_on_image::<$w, $h>()
+            neighbours_on_image::<$w, $h>()
         }
     };
 }
-image_harness!(predictors_image_1x3, 1, 3);
-image_harness!(predictors_image_2x3, 2, 3);
-image_harness!(predictors_image_3x3, 3, 3);
-image_harness!(predictors_image_4x3, 4, 3);
-image_harness!(predictors_image_5x3, 5, 3);
-image_harness!(predictors_image_6x4, 6, 4);
+image_harness!(neighbours_image_1x3, 1, 3);
+image_harness!(neighbours_image_2x3, 2, 3);
+image_harness!(neighbours_image_3x3, 3, 3);
+image_harness!(neighbours_image_4x3, 4, 3);
+image_harness!(neighbours_image_5x3, 5, 3);
+image_harness!(neighbours_image_6x4, 6, 4);
